@@ -212,6 +212,8 @@ class SimFS:
     def is_sim(self, path) -> bool:
         if isinstance(path, int):
             return False
+        if path in ("", b""):
+            return True
         try:
             return self.norm(path).startswith(CWD + "/") or self.norm(path) == CWD
         except TypeError:
@@ -269,6 +271,10 @@ class SimFS:
                 self.passthrough.append(repr(file))
                 raise PermissionError(_errno.EACCES, "write to a real path blocked by the simulator", os.fspath(file) if not isinstance(file, int) else None)
             return self._real_open(file, mode, buffering, encoding, errors, newline, closefd, opener)
+        if not isinstance(file, int) and os.fspath(file) in ("", b""):
+            self.seq += 1
+            self.record("open", "OTHER", "", mode, "!ENOENT")
+            raise FileNotFoundError(_errno.ENOENT, os.strerror(_errno.ENOENT), os.fspath(file))
         path = self.norm(file)
         role = self.role_of(path)
         modes = set(mode)
@@ -353,6 +359,8 @@ class SimFS:
     def os_open(self, path, flags, mode=0o777, *, dir_fd=None):
         import os as _os
 
+        if os.fspath(path) in ("", b""):
+            raise FileNotFoundError(_errno.ENOENT, os.strerror(_errno.ENOENT), os.fspath(path))
         p = self.norm(path)
         role = self.role_of(p)
         acc = flags & (_os.O_RDONLY | _os.O_WRONLY | _os.O_RDWR)
